@@ -81,9 +81,18 @@ def random_plan(seed, family="fault-free"):
                 elif state == "same" and f"pool/f{k}" in files:
                     files[cache] = files[f"pool/f{k}"]
                 elif state == "link":
-                    files[cache] = {"link": f"pool/f{k}"}
+                    # mostly a link to the very pool file, sometimes one left from another pool or a dead one
+                    target = pick(f"linktarget{pid}/{j}", ["same", "same", "other", "dead"])
+                    if target == "other" and npool > 1:
+                        files[cache] = {"link": f"pool/f{(k + 1) % npool}"}
+                    elif target == "dead":
+                        files[cache] = {"link": f"pool/gone{k}"}
+                    else:
+                        files[cache] = {"link": f"pool/f{k}"}
             if isinstance(files.get(cache), dict) and op == "upload":
                 op = "upload_link"
+            if isinstance(files.get(cache), dict) and files[cache]["link"] != f"pool/f{k}" and op == "download":
+                op = "download_link"   # links to other places only occur in link mode
             script.append({"op": op, "cache": cache, "pool": f"pool/f{k}", "timeout": pick(f"to{pid}/{j}", [5, 8, 300])})
         procs.append(script)
     return {"seed": seed, "engine": "locksim", "property": PROP, "family": family, "files": files, "procs": procs,
